@@ -3,6 +3,7 @@
 From Coq Require Import List NArith Bool.
 From TT Require Import Lib.BytesL Model.Channels Generated.ChannelFacts Proofs.ChannelsProofs.
 From TT Require Import Generated.Http1Facts Model.Http1Wire Spec.Rfc9112 Proofs.Http1WireProofs.
+From TT Require Import Model.Http1Download Proofs.Http1DownloadProofs.
 Import ListNotations.
 Open Scope N_scope.
 
@@ -72,6 +73,23 @@ Proof.
   split; [exact request_round_trip_proof|]. split; [exact request_with_host_proof|]. split; exact eq_refl.
 Qed.
 Print Assumptions reverse_proxy_request_head_is_well_formed.
+
+(* HTTP/1.1 response side (Model/Http1Download.v): whichever way offers to the one-place channel, partial writes to the transport
+   and dropped listen futures (a handler giving up its wait, a timer firing beside it) are interleaved, the client has at every
+   moment been sent a prefix of what the sink accepted, and once the session is closed in an orderly way, all of it. Holds because
+   the message being written is kept in the codec; as found it lived in the future and a slow reader lost the tail of a download *)
+Theorem http1_download_survives_dropped_futures :
+  (forall ops, exists rest, accepted (drun true ops) = wire (drun true ops) ++ rest)
+  /\ (forall ops, wire (drun true (ops ++ [DClose])) = accepted (drun true (ops ++ [DClose])))
+  /\ HTTP1_MESSAGE_IN_FLIGHT_KEPT = true.
+Proof. split; [exact sent_is_a_prefix|]. split; [exact closed_session_delivered_everything|exact eq_refl]. Qed.
+Print Assumptions http1_download_survives_dropped_futures.
+
+(* non-vacuity: a four-byte message, one byte written, the future dropped, the session closed: kept -> all four arrive; as found -> one *)
+Example ex_dropped_future :
+  wire (drun true [DOffer [1;2;3;4]%N; DTake; DWrite 1; DDrop; DClose]) = [1;2;3;4]%N
+  /\ wire (drun false [DOffer [1;2;3;4]%N; DTake; DWrite 1; DDrop; DClose]) = [1]%N.
+Proof. vm_compute. split; reflexivity. Qed.
 
 Theorem code_facts :
   DEMUX_SELECT_AS_MODELLED = true /\ SPEEDTEST_AS_MODELLED = true /\ PING_ANSWERS_200_EOF = true
